@@ -16,7 +16,10 @@ def runC14 (op : String) (j : Json) : R Json := do
                       ("spec", jInts (maps.flatten.map Int.ofNat))])
   | "rawind_direct" =>
     let cm ← getNats j "cm"; let pr ← getNats j "probes"
-    pure (Json.mkObj [("model", jInts (exportRawInd cm pr))])
+    let m := exportRawInd cm pr
+    -- `ordered`: the class of probe tables for which a per-probe raw index is claimed (Spec `probesOrdered`)
+    pure (Json.mkObj [("model", jInts m), ("ordered", Json.bool (probesOrdered cm pr)),
+                      ("nonneg", Json.bool (m.all fun x => decide (0 ≤ x)))])
   | "nearest" =>
     let pos ← fld j "positions" >>= asList asPos
     let pr ← getNats j "probes"; let peaks ← getNats j "peaks"; let ncw ← getNat j "ncw"
